@@ -532,6 +532,13 @@ class WireEval:
                  ast.BitAnd: lambda: l & r, ast.Pow: lambda: l ** r}
             if type(op) in f:
                 return f[type(op)]()
+        if isinstance(l, str) and isinstance(r, str) and isinstance(
+                op, ast.Add):
+            return l + r
+        if isinstance(op, ast.Mult) and (
+                (isinstance(l, str) and type(r) is int) or
+                (isinstance(r, str) and type(l) is int)):
+            return l * r          # a struct format: 56 * 'x'
         if isinstance(l, (list, tuple, bytes)) and isinstance(
                 r, (list, tuple, bytes)) and isinstance(op, ast.Add):
             return list(l) + list(r)
